@@ -31,6 +31,7 @@ pub fn sections(ctx: &Ctx) -> Vec<(&'static str, u64)> {
         ("trivia", trivia * ctx.scale),
         ("corpus-trivia", w1),
         ("corpus-type", w1),
+        ("stale", trivia * ctx.scale),
     ]
 }
 
@@ -300,6 +301,23 @@ pub fn cases(ctx: &Ctx, section: &str, unit: u64) -> Vec<Case> {
                 out.push(graph_case(
                     "diag-trivia",
                     format!("W3:trivia#{i}"),
+                    &g,
+                    vec![],
+                    api,
+                    &mut rng,
+                ));
+            }
+        }
+        "stale" => {
+            for b in 0..BATCH {
+                let i = unit * BATCH + b;
+                let mut rng = ctx.rng().sub_n(section, i);
+                let form = if rng.chance(1, 3) { Form::Compile } else { Form::Pre };
+                let g = w3::generate(&mut rng.sub("graph"), Mode::Hostile, form);
+                let api = if form == Form::Compile { Api::Compile } else { Api::Preprocess };
+                out.push(graph_case(
+                    "diag-stale",
+                    format!("W3:stale#{i}"),
                     &g,
                     vec![],
                     api,
@@ -868,6 +886,70 @@ pub fn judge(case: &Case, rep: &mut Report) {
                         ),
                     ));
                 }
+            }
+        }
+        "diag-stale" => {
+            // A file that is physically read more than once (two spellings, two includers) and
+            // whose second read returns another version. Whatever the loader's policy, the result
+            // must be the one of a consistent world: every read sees version 1, or every read
+            // sees version 2 - never tokens of one version located in the other.
+            let a = run_single(case, ex, rep);
+            if a.kind == OutcomeKind::Panic {
+                rep.count("stale_not_judged_base_panics", 1);
+                return;
+            }
+            let mut reads: std::collections::BTreeMap<String, u32> = Default::default();
+            for e in &a.events {
+                if let Some(c) = &e.resolved {
+                    *reads.entry(c.clone()).or_insert(0) += 1;
+                }
+            }
+            let multi: Vec<&String> = reads.iter().filter(|(_, n)| **n >= 2).map(|(f, _)| f).collect();
+            if multi.is_empty() {
+                rep.count("stale_not_judged_no_file_read_twice", 1);
+                return;
+            }
+            let mut vr = Rng::new(case.params.gu("variant_seed")).sub("stale");
+            let f = (*vr.pick(&multi)).clone();
+            let v1 = case.fss[task.fs].files[&f].clone();
+            let k = [1u64, 2, 7][vr.below(3) as usize];
+            let v2 = format!(
+                "{}{v1}\n#define STALE_CAT(a,b) a##b\n{}",
+                trivia_lines(&mut vr, k).replace("\\\n", "\n"),
+                if task.api == Api::Preprocess {
+                    "stale_marker STALE_CAT(stale_,tail) ;\n"
+                } else {
+                    "static const int STALE_CAT(stale_,tail) = 1 ;\n"
+                }
+            );
+            // world B: the tree with version 2 in place
+            let mut case_b = case.clone();
+            case_b.fss[task.fs].files.insert(f.clone(), v2.clone());
+            let b = run_single(&case_b, ex, rep);
+            // world C: first read version 1, later reads version 2
+            let mut cx = ex.clone();
+            cx.threads[0].tasks[0]
+                .faults
+                .push(Fault::new(FaultKind::Stale, Sel::File(f.clone())).text(&v2));
+            let c = run_single(case, &cx, rep);
+            rep.count("stale_worlds_compared", 1);
+            rep.nontrivial.insert(digest);
+            if c.kind == OutcomeKind::Panic {
+                rep.findings.push(finding("panic", &c.panic_site, format!("{}: {}", case.label, c.text)));
+                return;
+            }
+            let same = |x: &TaskResult, y: &TaskResult| x.text == y.text && x.aux == y.aux;
+            if !same(&c, &a) && !same(&c, &b) {
+                rep.findings.push(finding(
+                    "stale-read",
+                    "mixed-versions",
+                    format!(
+                        "{}: {f} is read twice and the second read returns another version; the result is neither the one of version 1 everywhere nor of version 2 everywhere: differs from v1 at {} / {}",
+                        case.label,
+                        crate::case::first_difference(&a.text, &c.text),
+                        crate::case::first_difference(&a.aux, &c.aux)
+                    ),
+                ));
             }
         }
         "diag-trivia" => {
